@@ -224,3 +224,74 @@ def F_root0(F, t):
 
 def stream_node_counts(ctx, built, ntables=None):
     return stream_tree(ctx, built, ntables or ctx.scale(12, 120), with_counts=True, name="S-node", maxdim=2)
+
+
+# ---- S-harv: harvest(tree, rng) ------------------------------------------------------------------------------
+class RecRandom(random.Random):
+    """random.Random that records what the model needs as an input stream"""
+    def __init__(self, *a):
+        super().__init__(*a); self.log = []
+
+    def randint(self, a, b):
+        v = super().randint(a, b); self.log.append(("randint", a, b, v)); return v
+
+    def random(self):
+        v = super().random(); self.log.append(("random", v)); return v
+
+    def shuffle(self, x):
+        idx = list(range(len(x))); super().shuffle(idx)
+        x[:] = [x[i] for i in idx]; self.log.append(("shuffle", tuple(idx)))
+
+    def sample(self, population, k, **kw):
+        pop = list(population); idx = super().sample(range(len(pop)), k); self.log.append(("sample", tuple(idx)))
+        return [pop[i] for i in idx]
+
+
+def buckets_real(F, comb, seed=0):
+    from syndiffix.bucket import harvest
+    rng = RecRandom(seed)
+    bs = harvest(F.get_tree(comb), rng)
+    stream = [v for (k, *rest) in rng.log if k == "randint" for v in [rest[2]]]
+    return bs, stream
+
+
+def stream_harvest(ctx, built, ntables, oracle=None, max_rows=160, maxdim=3, params="random", name="S-harv"):
+    """harvest of every 1..3-column tree: bucket lists (ranges + counts, in order) bit-exact; oracle(table, forest, comb, root, buckets)."""
+    R = ctx.rng
+    S = ctx.stream(name, "harvest(tree, rng) for every combination of 1..3 columns of random tables (see S-tree), unsafe RNG recorded and replayed "
+                   "into the model; compared: bucket list in order (ranges bit-exact, counts), number of RNG draws; non-trivial = >= 2 buckets, "
+                   "distinct by table and combination")
+    for ti in range(ntables):
+        t = gen_table(R, max_rows=max_rows, params=params)
+        try:
+            F, kind = build_real(t)
+        except RecursionError:
+            continue
+        lines = forest_lines(t, F, kind)
+        exp_blocks = [None]
+        combs = list(all_combs(len(t["names"]), maxdim))
+        for comb in combs:
+            try:
+                bs, stream = buckets_real(F, comb)
+                exp = [f"{b.count} | {ivs(b.intervals)}" for b in bs] + [f"drawn {len(stream)}"]
+            except ZeroDivisionError:
+                bs, stream, exp = None, [], ["ERR zerodiv"]
+            lines.append("harvest " + " ".join(map(str, comb)) + " | " + " ".join(map(str, stream))); exp_blocks.append(exp)
+            refined = bs is not None and len(stream) > 0
+            S.count((repr(t["cols"]), repr(t["pids"]), comb, repr(t["ap"]), repr(t["bp"])), bs is not None and len(bs) >= 2,
+                    {"table": table_summary(t), "comb": comb, "buckets": None if bs is None else len(bs), "rng_draws": len(stream)},
+                    tag=f"dim{len(comb)}/" + ("refined" if refined else "plain"))
+            if oracle and bs is not None:
+                oracle(t, F, comb, F.get_tree(comb), bs)
+        if built:
+            got = split_replies(drive(lines, timeout=900))
+            if len(got) != len(exp_blocks):
+                S.mismatch({"table": table_summary(t)}, f"{len(got)} reply blocks", f"{len(exp_blocks)} expected", "protocol")
+            for bi, (e, g) in enumerate(zip(exp_blocks, got)):
+                if e is not None and e != g:
+                    k = next((i for i, (a, b) in enumerate(zip(e, g)) if a != b), min(len(e), len(g)))
+                    S.mismatch({"table": table_summary(t), "comb": combs[bi - 1], "cols": t["cols"] if t["n"] <= 20 else "...", "pids": t["pids"] if t["n"] <= 20 else "..."},
+                               g[k] if k < len(g) else "<missing>", e[k] if k < len(e) else "<missing>", f"(bucket line {k} of {len(e)}/{len(g)})")
+                    break
+    ctx.obligation(f"correspondence {name} (harvested bucket lists, bit-exact)", "correspondence", S.d["mismatches"] == 0, f"{S.d['mismatches']} mismatches")
+    return S
